@@ -225,5 +225,5 @@ def body(rec, c):
         shutil.rmtree(work, ignore_errors=True)
 
 
-CHECKS = [Check("dump_resume", body, lambda: {"c": dump_case()}, quick=3, thorough=12, quick_shards=12,
+CHECKS = [Check("dump_resume", body, lambda: {"c": dump_case()}, quick=3, thorough=25, quick_shards=12,
                 thorough_shards=16, shrink_quick=False)]
